@@ -154,12 +154,13 @@ Proof.
 Qed.
 Print Assumptions C19_rerun.
 
-(* structural changes between two layouts (children reversed, a leaf inserted, a child removed:
-   `edit`): after any history `steps` of edits and layouts starting from any state `st`, the
-   coordinates written by the last call are exactly the fresh layout of the tree as it is then *)
-Theorem C19_relayout_is_fresh : forall st steps e p,
-  snd (run_steps st (steps ++ [(e, p)]))
-  = reingold_tilford p (tree_of_d (apply_edit e (fst (run_steps st steps)))).
+(* structural changes between two layouts (`edit`: children reversed, a leaf inserted, a child
+   removed, a subtree moved up / down / sideways, a piece cut off, the tree re-rooted): after any
+   history `steps` of edits and layouts starting from any state `st`, the coordinates written by
+   the last call are exactly the fresh layout of the tree as it is then *)
+Theorem C19_relayout_is_fresh : forall st steps es p,
+  snd (run_steps st (steps ++ [(es, p)]))
+  = reingold_tilford p (tree_of_d (apply_edits es (fst (run_steps st steps)))).
 Proof. exact relayout_is_fresh. Qed.
 Print Assumptions C19_relayout_is_fresh.
 
@@ -174,7 +175,7 @@ Print Assumptions C19_layout_keeps_shape.
    the second layout is the fresh one of the 7-node tree and satisfies the whole property. *)
 Definition k4_tree : tree := nd [nd [leaf; leaf]; nd [leaf]].
 Example C19_rerun_after_insert_ok :
-  let st := run_steps (layout unit_params (zero_d k4_tree)) [(EAdd [] 2, unit_params)] in
+  let st := run_steps (layout unit_params (zero_d k4_tree)) [([EAdd [] 2], unit_params)] in
   prop_C19 0 unit_params (tree_of_d (fst st)) (snd st) = true
   /\ tsize (tree_of_d (fst st)) = 7%nat.
 Proof. split; vm_compute; reflexivity. Qed.
